@@ -52,6 +52,9 @@ SAV = "skchange.anomaly_scores.base.BaseSaving"
 
 
 def check(ctx):
+    from .c10 import shared_no_stale
+
+    shared_no_stale(ctx, "C03.i BINDING", [("skchange.anomaly_detectors", "CAPA"), ("skchange.anomaly_detectors", "MVCAPA")])
     drv = discover_driver(ctx)
     if drv is None:
         return
